@@ -548,3 +548,67 @@ Section Top.
     eapply (refs_follow_pipeline nonstr o t outs m1 m2 rules C Hbuild Hm1 ER EN HC Hne); eauto.
   Qed.
 End Top.
+
+(* ================= non-vacuity: one kustomization with namePrefix p-, a ConfigMap and a Pod mounting it ================= *)
+
+Definition nm_cm : node :=
+  Map [("apiVersion", Scalar TStr SPlain "v1"); ("kind", Scalar TStr SPlain "ConfigMap");
+       ("metadata", Map [("name", Scalar TStr SPlain "cm")])].
+Definition nm_pod : node :=
+  Map [("apiVersion", Scalar TStr SPlain "v1"); ("kind", Scalar TStr SPlain "Pod");
+       ("metadata", Map [("name", Scalar TStr SPlain "pod")]);
+       ("spec", Map [("volumes", Seq [Map [("configMap", Map [("name", Scalar TStr SPlain "cm")])]])])].
+Definition nm_tree : ptree := PDir "top" (mkPDirs "" "p-" "" [] [] [] [] []) [PFile [nm_cm; nm_pod]].
+
+Definition nm_m1 : list resource := unres (before_refs no_nonstr nm_tree).
+Definition nm_rules : list nbr := match pipe_rules with Ok l => l | _ => [] end.
+Definition nm_m2 : list resource := unres (nameref_transform pipe_cs no_nonstr nm_rules nm_m1).
+Definition nm_C : list cand := unres (mapM (view pipe_cs) nm_m1).
+Definition nm_r : resource := nth 1 nm_m1 (fresh (sc "")).
+Definition nm_fl : list bool := match referencable pipe_cs nm_m1 nm_r with Ok f => f | _ => [] end.
+Definition nm_row : nbr := nth 4 nm_rules (mkNbr "" "" "" []).
+
+Example nm_tree_wf : tree_wf nm_tree.
+Proof.
+  constructor; [solve_dirs_wf|]. constructor; [|constructor]. constructor.
+  constructor; [solve_wf_node|]. constructor; [solve_wf_node|constructor].
+Qed.
+
+Example refs_follow_pipeline_tree_nonvacuous :
+  tree_wf nm_tree /\
+  map (fun p => (pv_name p, pv_steps p, pv_gen p)) (tree_prov nm_tree) =
+    [("cm", [SPrefix "p-"], false); ("pod", [SPrefix "p-"], false)] /\
+  before_refs no_nonstr nm_tree = Ok nm_m1 /\ pipe_rules = Ok nm_rules /\
+  nameref_transform pipe_cs no_nonstr nm_rules nm_m1 = Ok nm_m2 /\ mapM (view pipe_cs) nm_m1 = Ok nm_C /\
+  nb_kind nm_row = "ConfigMap" /\ In nm_row nm_rules /\ In ex_pod_fs (nb_referrers nm_row) /\
+  (exists org, org_id pipe_cs nm_r = Ok org /\ gvk_is_selected (id_gvk org) (fs_gvk ex_pod_fs) = true) /\
+  referencable pipe_cs nm_m1 nm_r = Ok nm_fl /\ nth_error nm_fl 0 = Some true /\
+  reaches (path_splitter (fs_path ex_pod_fs)) ex_pod_addr (r_node nm_r) = true /\
+  get_addr ex_pod_addr (r_node nm_r) = Some (Scalar TStr SPlain "cm") /\
+  (exists pb b, nth_error (tree_prov nm_tree) 0 = Some pb /\ pv_name pb = "cm" /\
+                nth_error nm_C 0 = Some b /\ c_name b = "p-cm" /\
+                roleref_sieve (make_ctx pipe_cs nm_r (fs_path ex_pod_fs) (nb_gvk nm_row)) b = true /\
+                name_kind_match (make_ctx pipe_cs nm_r (fs_path ex_pod_fs) (nb_gvk nm_row)) "cm" b = true /\
+                namespace_sieve (make_ctx pipe_cs nm_r (fs_path ex_pod_fs) (nb_gvk nm_row)) b = true /\
+                forall k p, k <> 0 -> nth_error (tree_prov nm_tree) k = Some p ->
+                            may_be p "cm" = false /\ may_be p (c_name b) = false) /\
+  match build no_nonstr PSortNone nm_tree with
+  | Ok outs => map (fun n => (get_name n, get_addr ex_pod_addr n)) outs
+  | _ => []
+  end = [("p-cm", None); ("p-pod", Some (Scalar TNone SPlain "p-cm"))].
+Proof.
+  split; [exact nm_tree_wf|]. split; [vm_compute; reflexivity|].
+  split; [vm_compute; reflexivity|]. split; [vm_compute; reflexivity|].
+  split; [vm_compute; reflexivity|]. split; [vm_compute; reflexivity|].
+  split; [vm_compute; reflexivity|]. split; [vm_compute; tauto|]. split; [vm_compute; tauto|].
+  split; [eexists; split; vm_compute; reflexivity|].
+  split; [vm_compute; reflexivity|]. split; [vm_compute; reflexivity|].
+  split; [vm_compute; reflexivity|]. split; [vm_compute; reflexivity|].
+  split; [|vm_compute; reflexivity].
+  exists (nth 0 (tree_prov nm_tree) (mkPv "" [] false)), (nth 0 nm_C ex_cand0).
+  split; [vm_compute; reflexivity|]. split; [vm_compute; reflexivity|]. split; [vm_compute; reflexivity|].
+  split; [vm_compute; reflexivity|]. split; [vm_compute; reflexivity|]. split; [vm_compute; reflexivity|].
+  split; [vm_compute; reflexivity|].
+  intros [|[|k]] p Hk Hp; [contradiction| |destruct k; discriminate].
+  vm_compute in Hp. inv Hp. split; vm_compute; reflexivity.
+Qed.
